@@ -87,7 +87,7 @@ def scenarios():
 
 def grid(sc):
     out = []
-    for n in (4, 6, 7, 9):
+    for n in (3, 4, 6, 7, 9):
         for w in ((2, 3, 4, 5, 6) if sc.window else (None,)):
             for sp in ((2, 3, 4) if sc.seasonal else (None,)):
                 for fh in ([1], [2], [1, 3], [5], [2, 7]):
@@ -191,11 +191,52 @@ def rule_r1(ctx, repo, runs):
         run = NaiveRun(repo, sc)
         runs[sc.tag] = run
         ctx.count("scenarios")
+        if len(run.rets) > 1:
+            # several accepting paths under one scenario (e.g. a guard that no longer rejects): none may accept a window longer
+            # than the series; everything else needs a single path
+            decided = False
+            for k_, (s_, _) in enumerate(run.rets[:4]):
+                hp = getattr(s_, "heap", {})
+                got_ = as_lin_val(hp.get((id(run.selfv), "window_length_")))
+                if got_ is None:
+                    continue
+                for env in feasible(grid(sc), s_.facts):
+                    try:
+                        if env.eval(got_) > env.eval(N):
+                            ctx.violation("R1", sc.tag + ":window<=series", "a window longer than the series is accepted; witness %s"
+                                          % witness_text(dict(env.describe(), window=str(env.eval(got_)))), loc,
+                                          witness=dict(env.describe(), window=str(env.eval(got_))))
+                            decided = True
+                            break
+                    except Uneval:
+                        continue
+                if decided:
+                    break
+            if not decided:
+                ctx.undecided("R1", sc.tag + ":accepted", "fit has %d interpretable normal returns for a valid configuration (expected one)"
+                              % len(run.rets), loc)
+            continue
         if len(run.rets) != 1:
             ctx.undecided("R1", sc.tag + ":accepted", "fit has %d interpretable normal returns for a valid configuration (expected one)"
                           % len(run.rets), loc)
             continue
         envs = feasible(grid(sc), run.facts)
+        # every valid configuration of the scenario is accepted (the guards of fit reject nothing the property quantifies over)
+        rejected = None
+        for env in grid(sc):
+            try:
+                n_, w_ = env.eval(N), env.eval(sc.expected_window())
+                valid = w_ <= n_ and (not sc.seasonal or sc.strategy != "mean" or not sc.window or w_ >= env.eval(SP)) \
+                    and (sc.strategy != "drift" or w_ >= 2)
+            except Uneval:
+                continue
+            if valid and env.holds(run.facts) is False:
+                rejected = env
+                break
+        ctx.check(rejected is None, "R1", sc.tag + ":valid-configurations-accepted",
+                  "no valid configuration of this scenario is rejected by the guards of fit",
+                  "a valid configuration is rejected by fit; witness %s" % (witness_text(rejected.describe()) if rejected else ""), loc,
+                  witness=rejected.describe() if rejected else None)
         got = as_lin_val(run.selfv.attrs.get("window_length_"))
         eq_lin(ctx, "R1", sc.tag + ":window_length_", loc, got, sc.expected_window(), run.facts, envs,
                "window_length_ resolved by fit")
@@ -450,7 +491,11 @@ def rule_naive_predict(ctx, repo, runs):
         rets = [(s, o[1]) for s, o in traces if o[0] == "return"]
         falls = [s for s, o in traces if o[0] == "fall"]
         if not rets:
-            ctx.undecided("R2", tag + ":returns", "no normal return of _predict_last_window under this scenario", loc)
+            if falls and not [1 for s_, o in traces if o[0] == "raise"]:
+                ctx.violation("R2", tag + ":returns", "for a valid configuration every path of _predict_last_window ends without returning a "
+                              "forecast (None is returned)", loc, witness={"scenario": tag})
+            else:
+                ctx.undecided("R2", tag + ":returns", "no normal return of _predict_last_window under this scenario", loc)
             continue
         if falls:
             ctx.undecided("R2", tag + ":falls-through", "_predict_last_window may end without returning a forecast on a path the scenario facts do not exclude", loc)
@@ -665,6 +710,11 @@ def eval_value(v, env, j):
     if isinstance(v, (Vec, FHV)):
         vec = v.vec if isinstance(v, FHV) else v
         return q.vec_elem(vec, Lin.c(j)).const
+    if isinstance(v, Opq) and v.tag == "floordiv" and len(v.args) == 2:
+        a, b = eval_value(v.args[0], env, j), eval_value(v.args[1], env, j)
+        if b == 0:
+            raise Uneval("div0")
+        return Fraction(a) // Fraction(b)
     if isinstance(v, Opq) and v.tag in ("add", "sub", "mul", "div") and len(v.args) == 2:
         a, b = eval_value(v.args[0], env, j), eval_value(v.args[1], env, j)
         if v.tag == "add":
@@ -1068,6 +1118,9 @@ def rule_time_axis(ctx, repo):
         if isinstance(call.func, ast.Attribute) and call.func.attr == "to_absolute":
             recv = interp.ev(call.func.value, st, frame)
             return Opq("absolute-horizon", [recv] + list(args))
+        if isinstance(call.func, ast.Attribute) and call.func.attr == "reshape":
+            if [as_lin_val(a) for a in args] != [Lin.c(-1), ONE] or kwargs:
+                return Opq("reshape", args)  # only the column reshape(-1, 1) is modelled
         if isinstance(call.func, ast.Attribute) and call.func.attr in ("to_numpy", "reshape"):
             recv = interp.ev(call.func.value, st, frame)
             if isinstance(recv, Opq) and recv.tag in ("absolute-int-horizon", "column"):
@@ -1554,6 +1607,98 @@ def check_fh_caches(ctx, repo, rule):
     ctx.ok(rule, "ForecastingHorizon:cache-decorators", "caching decorators on horizon conversions examined", ctx.loc(mod, cls.node))
 
 
+def rule_theta_pipeline(ctx, repo):
+    """R6 (continued): the theta forecast is SES(deseasonalised y) + drift, re-seasonalised -- decided as dataflow of fit/_predict
+    for deseasonalize True / False: what the wrapped exponential smoothing is fitted on, what the trend is computed from, and what
+    _predict returns."""
+    cls = repo.cls(THETA + ":ThetaForecaster")
+    mod = cls.module
+    for flag in (True, False):
+        tag = "ThetaForecaster[deseasonalize=%s]" % flag
+        seen = {}
+
+        def hooks(interp, frame, call, fname, args, kwargs, st, _base=make_hooks(Rec())):
+            simple = (fname or "").split(".")[-1]
+            if simple == "check_y_X":
+                return Tup([args[0] if args else kwargs.get("y"), args[1] if len(args) > 1 else kwargs.get("X", K(None))])
+            if simple == "check_sp":
+                return args[0] if args else kwargs.get("sp")
+            sym = interp.repo.resolve_dotted(frame.module, fname) if fname else None
+            if sym is not None and sym.kind == "class" and sym.target.name == "Deseasonalizer":
+                return Opq("deseasonalizer")
+            if isinstance(call.func, ast.Attribute):
+                recv_node = call.func.value
+                meth = call.func.attr
+                if isinstance(recv_node, ast.Call) and dotted(recv_node.func) == "super":
+                    seen.setdefault("super." + meth, []).append((list(args), dict(kwargs)))
+                    return Opq("ses-forecast") if meth == "_predict" else K(None)
+                recv = interp.ev(recv_node, st, frame)
+                if isinstance(recv, Opq) and recv.tag == "deseasonalizer":
+                    if meth in ("fit_transform", "transform") and args:
+                        return Opq("deseasonalised", [args[0]])
+                    if meth == "inverse_transform" and args:
+                        return Opq("reseasonalised", [args[0]])
+                if isinstance(recv, SelfV) and meth == "_compute_trend":
+                    seen.setdefault("trend", []).append(list(args))
+                    return Opq("trend")
+                if isinstance(recv, SelfV) and meth == "_compute_drift":
+                    return Opq("drift")
+                if isinstance(recv, SelfV) and meth == "compute_pred_int":
+                    return Opq("pred-int")
+            return _base(interp, frame, call, fname, args, kwargs, st)
+
+        it = AInterp(repo, scenario={}, hooks=hooks, no_inline=NO_INLINE + ("check_y_X", "check_sp", "_compute_trend", "_compute_drift", "compute_pred_int"))
+        selfv = SelfV(cls, {"deseasonalize": K(flag), "sp": SP, "initial_level": K(None), "_fitted_forecaster": Opq("fitted"),
+                            "deseasonalizer_": K(None)})
+        ypar = Ser("y", N, T)
+        fitfn = cls.methods.get("fit")
+        predfn = cls.methods.get("_predict")
+        if fitfn is None or predfn is None:
+            raise AnalysisError("ThetaForecaster.fit/_predict missing")
+        f = Facts()
+        f.add_cmp(SP, ">=", 2)
+        tr, _ = it.run_function(Frame(mod, fitfn, cls, cls), {"self": selfv, "y": ypar, "X": K(None), "fh": FH}, State(facts=f))
+        locf = ctx.loc(mod, fitfn)
+        want = Opq("deseasonalised", [ypar]) if flag else ypar
+        fits = seen.get("super.fit", [])
+        if len(fits) != 1:
+            ctx.undecided("R6", tag + ":fit-data", "expected one super().fit(...) call, found %d" % len(fits), locf)
+        else:
+            a, kw = fits[0]
+            yv = a[0] if a else kw.get("y")
+            ctx.check((yv == want or yv is want) if isinstance(yv, (Opq, Ser)) else None, "R6", tag + ":fit-data",
+                      "the exponential smoothing model is fitted on %s" % ("the deseasonalised series" if flag else "the series itself"),
+                      "the exponential smoothing model is fitted on %r, expected %s" % (yv, "the deseasonalised series" if flag else "the series itself"), locf)
+            ctx.check(kw.get("fh", a[2] if len(a) > 2 else None) == FH, "R6", tag + ":fit-horizon", "the horizon is handed to the wrapped fit",
+                      "super().fit does not receive the horizon", locf)
+        trs = seen.get("trend", [])
+        if len(trs) != 1 or not trs[0]:
+            ctx.undecided("R6", tag + ":trend-data", "expected one _compute_trend(y) call", locf)
+        else:
+            tv = trs[0][0]
+            ctx.check((tv == want or tv is want) if isinstance(tv, (Opq, Ser)) else None, "R6", tag + ":trend-data",
+                      "the drift slope is estimated on the same series the smoothing model is fitted on",
+                      "the drift slope is estimated on %r, the smoothing model is fitted on %s" % (tv, "the deseasonalised series" if flag else "the series"), locf)
+        # _predict
+        selfv.attrs["deseasonalizer_"] = Opq("deseasonalizer") if flag else K(None)
+        tr2, _ = it.run_function(Frame(mod, predfn, cls, cls), {"self": selfv, "fh": FH, "X": K(None), "return_pred_int": K(False)}, State(facts=f))
+        locp = ctx.loc(mod, predfn)
+        rets = [o[1] for s_, o in tr2 if o[0] == "return"]
+        base = None
+        good = None
+        if len(rets) == 1:
+            r = rets[0]
+            inner = r.args[0] if (isinstance(r, Opq) and r.tag == "reseasonalised" and r.args) else r
+            is_sum = isinstance(inner, Opq) and inner.tag == "add" and len(inner.args) == 2 and \
+                {getattr(x, "tag", None) for x in inner.args} == {"ses-forecast", "drift"}
+            wrapped = isinstance(r, Opq) and r.tag == "reseasonalised"
+            if isinstance(r, Opq) and (r.tag in ("reseasonalised", "add", "ses-forecast", "drift")):
+                good = is_sum and (wrapped == flag)
+        ctx.check(good, "R6", tag + ":forecast", "_predict returns %s(SES forecast + drift)" % ("reseasonalise" if flag else ""),
+                  "_predict returns %r, expected %s(SES forecast + drift)" % (rets, "reseasonalise" if flag else ""), locp,
+                  witness={"deseasonalize": flag, "returned": repr(rets)})
+
+
 def check_theta_alignment(ctx, repo):
     """R6 (dependency of ThetaForecaster): the forecasts are re-seasonalised by Deseasonalizer._align_seasonal; its alignment
     formula is decided by C13-R4 -- that rule is evaluated here and reported under this property."""
@@ -1597,6 +1742,7 @@ def run(ctx):
     rule_moving_cutoff(ctx, repo)
     rule_time_axis(ctx, repo)
     rule_forwarding(ctx, repo)
+    rule_theta_pipeline(ctx, repo)
     check_theta_alignment(ctx, repo)
     check_fh_models(ctx, repo, "R2", which=("to_indexer",))
     check_fh_models(ctx, repo, "R5", which=("to_absolute_int",))
